@@ -6,6 +6,7 @@ import (
 	"encoding/base64"
 	"encoding/json"
 	"fmt"
+	"math"
 	"math/rand"
 	"os"
 	"runtime"
@@ -267,7 +268,7 @@ func (Inflate) Run(c *orch.Case) *orch.Outcome {
 		orch.Fatal("inflate: bad case")
 	}
 	_ = rand.Int
-	limit := map[string]int{"0": 5 << 20, "1": 1, "2k": 2048, "64k": 65536}[cfg.Limit]
+	limit := map[string]int{"0": 5 << 20, "1": 1, "2k": 2048, "64k": 65536, "maxint": math.MaxInt64}[cfg.Limit]
 	eff := limit
 	if in.Entry == "predecodeResp" || in.Entry == "predecodeLogout" {
 		eff = 5 << 20
@@ -304,7 +305,7 @@ func (Inflate) Run(c *orch.Case) *orch.Outcome {
 		enc = present(in.Entry, in.Good, total, in.Pres)
 	}
 	sp := world.Get().NewSP()
-	sp.MaximumDecompressedBodySize = map[string]int64{"0": 0, "1": 1, "2k": 2048, "64k": 65536}[cfg.Limit]
+	sp.MaximumDecompressedBodySize = map[string]int64{"0": 0, "1": 1, "2k": 2048, "64k": 65536, "maxint": math.MaxInt64}[cfg.Limit]
 
 	o := &iObs{Size: total}
 	runtime.GC()
